@@ -31,8 +31,11 @@ def interp_analysis(repo: Repo) -> Dict[str, Any]:
     escapes = []
     origins: Dict[Tuple[str, str], List[str]] = {}
     for exc, tag in sorted(effs):
-        if exc in ALLOWED or exc in ASSERTION_CLASSES or tag in SETUP_TAGS:
+        if exc in ALLOWED or exc in ASSERTION_CLASSES:
             continue
+        if tag in SETUP_TAGS and all(o.startswith("raise ") for o in eng.origins(key, (exc, tag))):
+            continue  # explicit rejections of invalid binding names; anything else that fails while the bindings are
+            # copied or loaded (a copy that cannot rebuild a value, ...) is an escape like any other
         escapes.append((tag or "Evaluator.evaluate", exc, short_why(eng.explain(key, (exc, tag)))))
         origins.setdefault((tag or "Evaluator.evaluate", exc), [])
         origins[(tag or "Evaluator.evaluate", exc)] = sorted(set(origins[(tag or "Evaluator.evaluate", exc)]) | set(eng.origins(key, (exc, tag))))
